@@ -85,7 +85,7 @@ def run(chk: Check):
         n = rng.choice([3, 4, 5, 8, 17, 40, 100, 333, 1000, 2000, rng.randint(3, 2000)])
         shape = rng.choice(["walk", "walk", "alternating", "linear", "constant", "two_valued"])
         lam = 10.0 ** rng.uniform(-3, 7)
-        y = gen_series(rng, n, shape)
+        y = gen_series(rng, n, shape) * rng.choice([1.0, 1.0, 1e-8, 1e8, -3.0]) + rng.choice([0.0, 0.0, 1e4])
         case = {"case": {"kind": "hp", "n": n, "shape": shape, "lambda": lam}}
         with warnings.catch_warnings():
             warnings.simplefilter("ignore")
@@ -132,7 +132,16 @@ def run(chk: Check):
     # derived filters
     for _ in range(40 if chk.tier == "quick" else 500):
         n = rng.choice([3, 5, 20, 100, 500, rng.randint(3, 2000)])
-        y = np.exp(gen_series(rng, n, rng.choice(["walk", "alternating", "linear", "constant"])) * 0.05) * rng.choice([1.0, 100.0])
+        y = np.exp(gen_series(rng, n, rng.choice(["walk", "alternating", "linear", "constant"])) * 0.05) * rng.choice([1.0, 100.0, 1.0, 1e-9, 1e-20, 1e-300, 1e6, 1e200])
+        if rng.random() < 0.15:
+            y = np.exp(-0.4 * np.arange(n)) * rng.choice([1.0, 1e5])       # a quantity that dies out: values far below machine epsilon, still positive
+            y = np.maximum(y, 5e-324)
+        if rng.random() < 0.12 and n >= 4:
+            # jumps of hundreds of decades between consecutive values: every log and every log difference is finite, a quotient is not
+            y = y.copy()
+            for _ in range(rng.randint(1, 3)):
+                j = rng.randrange(n - 1)
+                y[j], y[j + 1] = rng.choice([(1e-200, 1e200), (1e250, 1e-100), (5e-324, 1e300), (1e308, 1e-308)])
         with warnings.catch_warnings():
             warnings.simplefilter("ignore")
             a = hp_cycle_lamb1600_filter(y.copy()); a_ref = hp_filter(y.copy(), 1600)[0]
